@@ -20,7 +20,7 @@ def kindOfStr : String → Except String Kind
 
 def envOfStr : String → Except String InitEnv
   | "ok" => pure .ok | "netErr" => pure .netErr | "http500" => pure .http500 | "rpcErr" => pure .rpcErr
-  | "badResult" => pure .badResult | "dropNotif" => pure .dropNotif
+  | "badResult" => pure .badResult | "dropNotif" => pure .dropNotif | "noAnswer" => pure .noAnswer
   | s => throw s!"env {s}"
 
 def opKOfStr : String → Except String OpK
